@@ -431,6 +431,7 @@ def install(eng):
 
     B["property"] = py_property
     B["NotImplemented"] = NotImplemented
+    B["slice"] = slice
     B["__name__"] = "__pyvc__"
     eng.builtins = B
     eng.py_isinstance = isinstance_wrapper
